@@ -35,24 +35,32 @@ def knobs(capacity=None, optimise=True):
     """Set the initial array capacity of appended outputs and/or disable the peephole pass,
     without editing tensora (DESIGN.md §1 'Source hooks: none')."""
     ensure_tensora()
-    import tensora.generate._tensora as GT
+    import tensora.generate  # noqa: F401
     import tensora.iteration_graph.outputs._append as AP
     from tensora.ir.ast import IntegerLiteral
 
     if not hasattr(AP, "default_array_size"):
         raise HarnessError("tensora.iteration_graph.outputs._append.default_array_size is gone")
-    if not hasattr(GT, "peephole"):
-        raise HarnessError("tensora.generate._tensora.peephole is gone")
-    old_cap, old_pp = AP.default_array_size, GT.peephole
+    # the optimisation pass is switched off by replacing the name ``peephole`` wherever a module of tensora.generate
+    # imported it (generate_module_tensora on this tree; a refactoring may move the call next to the printers)
+    import sys
+
+    holders = [m for n, m in list(sys.modules.items()) if n.startswith("tensora.generate") and hasattr(m, "peephole")]
+    if not optimise and not holders:
+        raise HarnessError("no module of tensora.generate refers to the peephole pass any more")
+    old_cap = AP.default_array_size
+    old_pp = [(m, m.peephole) for m in holders]
     try:
         if capacity is not None:
             AP.default_array_size = IntegerLiteral(int(capacity))
         if not optimise:
-            GT.peephole = lambda module: module
+            for m in holders:
+                m.peephole = lambda module: module
         yield
     finally:
         AP.default_array_size = old_cap
-        GT.peephole = old_pp
+        for m, f in old_pp:
+            m.peephole = f
 
 
 def clear_kernel_cache():
@@ -114,6 +122,19 @@ def build_module(case, kinds=("evaluate",), capacity=None, optimise=True):
     if isinstance(res, Failure):
         return "refused", type(res.failure()).__name__
     return "ok", res.unwrap()
+
+
+def public_code(case, kinds=("evaluate", "assemble", "compute"), language="c", capacity=None):
+    """The text tensora's public generate_code() returns for the case (what the CLI prints), or None when refused."""
+    ensure_tensora()
+    from returns.result import Failure
+    from tensora.generate import Language, generate_code
+    from tensora.kernel_type import KernelType
+
+    prob, _asg, _fmts = problem_of(case)
+    with knobs(capacity, True):
+        res = generate_code(prob, [KernelType[k] for k in kinds], Language[language])
+    return None if isinstance(res, Failure) else res.unwrap()
 
 
 def innermost_frame(exc):
